@@ -33,6 +33,11 @@ pub trait Be: 'static {
     /// from_2d_array, from_2d_vec (row-major data), new (column-major data),
     /// row_vector_from_{array,vec}, column_vector_from_{array,vec}
     fn build(via: &str, r: usize, c: usize, data: &[Self::T]) -> Self::M;
+    /// vectors built through the back end's own API (v_nat_reversed: negative stride, v_nat_strided: stepped
+    /// slice of a longer vector, v_nat_offset: tail of a longer vector); default: a plain vector
+    fn vbuild(_via: &str, data: &[Self::T]) -> V<Self> {
+        <V<Self> as BaseVector<Self::T>>::from_array(data)
+    }
     /// `DenseMatrix::iter()`; None for back ends without it
     fn iter_flat(m: &Self::M) -> Option<Vec<Self::T>>;
     fn veq(a: &V<Self>, b: &V<Self>) -> bool;
@@ -106,6 +111,7 @@ pub struct File<B: Be> {
     pub regs: Vec<Reg<B>>, // index 1..=NREG used
     pub meta: Vec<Meta>,
     pub skipped: usize,
+    pub codec: Codec,
 }
 
 enum Res<B: Be> {
@@ -119,9 +125,15 @@ enum Res<B: Be> {
 
 /// tiny shim so that the conversion does not depend on which num-traits version is visible
 pub mod num_from {
-    pub trait FromI64 {
+    pub trait FromI64: Sized {
         fn from_i64x(x: i64) -> Self;
         fn to_f64x(self) -> f64;
+        /// self * 2^e, exact (power-of-two rescaling)
+        fn scale2(self, e: i32) -> Self;
+        /// the float k units in the last place away from 0.1
+        fn ulp_from(k: i64) -> Self;
+        /// inverse of `ulp_from` (distance in ulps from 0.1, by bit pattern)
+        fn ulp_to(self) -> f64;
     }
     impl FromI64 for f64 {
         fn from_i64x(x: i64) -> f64 {
@@ -129,6 +141,15 @@ pub mod num_from {
         }
         fn to_f64x(self) -> f64 {
             self
+        }
+        fn scale2(self, e: i32) -> f64 {
+            self * 2f64.powi(e)
+        }
+        fn ulp_from(k: i64) -> f64 {
+            f64::from_bits((0.1f64.to_bits() as i64 + k) as u64)
+        }
+        fn ulp_to(self) -> f64 {
+            (self.to_bits() as i64).wrapping_sub(0.1f64.to_bits() as i64) as f64
         }
     }
     impl FromI64 for f32 {
@@ -138,13 +159,58 @@ pub mod num_from {
         fn to_f64x(self) -> f64 {
             self as f64
         }
+        fn scale2(self, e: i32) -> f32 {
+            self * 2f32.powi(e)
+        }
+        fn ulp_from(k: i64) -> f32 {
+            f32::from_bits((0.1f32.to_bits() as i64 + k) as u32)
+        }
+        fn ulp_to(self) -> f64 {
+            (self.to_bits() as i64 - 0.1f32.to_bits() as i64) as f64
+        }
+    }
+}
+
+/// How the integers of a program become floats and back (exact, order preserving maps; DESIGN §1):
+/// Plain: x;  Scale(e): x * 2^e (every value of the run is rescaled by the same power of two, the
+/// observations are divided by it again);  Ulp: the float x ulps away from 0.1 ("neighbouring floats",
+/// read back through the bit pattern).  The last two make values that differ by far less than machine
+/// epsilon in absolute terms; only operations whose definition is exact under the map are used then.
+#[derive(Clone, Copy, Debug, PartialEq)]
+pub enum Codec {
+    Plain,
+    Scale(i32),
+    Ulp,
+}
+
+thread_local! {
+    static CODEC: std::cell::Cell<Codec> = std::cell::Cell::new(Codec::Plain);
+}
+
+pub fn set_codec(c: Codec) {
+    CODEC.with(|x| x.set(c));
+}
+
+fn enc<B: Be>(x: i64) -> B::T {
+    match CODEC.with(|c| c.get()) {
+        Codec::Plain => B::T::from_i64x(x),
+        Codec::Scale(e) => B::T::from_i64x(x).scale2(e),
+        Codec::Ulp => B::T::ulp_from(x),
+    }
+}
+
+fn dec<B: Be>(v: B::T) -> f64 {
+    match CODEC.with(|c| c.get()) {
+        Codec::Plain => v.to_f64x(),
+        Codec::Scale(e) => v.scale2(-e).to_f64x(),
+        Codec::Ulp => v.ulp_to(),
     }
 }
 use num_from::FromI64;
 use num_traits_inf::Inf;
 
 fn f<B: Be>(x: B::T) -> f64 {
-    x.to_f64x()
+    dec::<B>(x)
 }
 
 pub fn fx(v: f64, scale: f64) -> i64 {
@@ -180,7 +246,7 @@ fn flat_v<B: Be>(v: &V<B>) -> Vec<f64> {
 }
 
 fn tv<B: Be>(xs: &[i64]) -> Vec<B::T> {
-    xs.iter().map(|&x| B::T::from_i64x(x)).collect()
+    xs.iter().map(|&x| enc::<B>(x)).collect()
 }
 
 fn us(x: i64) -> usize {
@@ -212,6 +278,7 @@ impl<B: Be> File<B> {
             regs: (0..=NREG).map(|_| Reg::E).collect(),
             meta: vec![Meta { kind: 0, r: 0, c: 0, maxabs: 0.0, tr: false, nat: false }; NREG + 1],
             skipped: 0,
+            codec: Codec::Plain,
         }
     }
 
@@ -246,7 +313,7 @@ impl<B: Be> File<B> {
             // provenance of the memory layout, over-approximated: a register is "tr" when it was made by
             // transpose or the column-major constructor, or computed from such a register
             let fresh = call.a == 0 && call.b == 0;
-            let native = call.op.starts_with("nat_");
+            let native = call.op.starts_with("nat_") || call.op.starts_with("v_nat_");
             // clone-based methods keep the (possibly oversized) buffer of their first operand: over-approximated
             self.meta[target].nat = native || (!fresh && anat);
             // (h_stack: ndarray's concatenate along axis 1 yields a column-major array; ab: the default
@@ -274,8 +341,8 @@ impl<B: Be> File<B> {
             "v_take" => call.iv.iter().all(|&x| ok(x, ma.c)),
             "scale_mut" => ia.len() >= 1 && call.iv.len() == (if ia[0] == 0 { ma.c } else { ma.r }) && call.iw.len() == call.iv.len(),
             "cov" => ma.r >= 2,
-            // dot is only specified on two row vectors / two column vectors (same or different length)
-            "dot" => vecshaped(&ma) && vecshaped(&mb) && ((ma.r == mb.r && ma.c == mb.c) || ma.r * ma.c != mb.r * mb.c),
+            // dot is specified on two vector-shaped matrices (any orientation; same length, or different: rejected)
+            "dot" => vecshaped(&ma) && vecshaped(&mb),
             "max_diff" => ma.kind == 1 && mb.kind == 1 && ma.r == mb.r && ma.c == mb.c,
             "var" | "std" | "mean" | "column_mean" | "min" | "max" | "argmax" | "softmax_mut" | "norm_inf" | "norm_ninf" => ma.r >= 1 && ma.c >= 1,
             _ => true,
@@ -293,10 +360,21 @@ impl<B: Be> File<B> {
         self.exec_on(run, "Stat", call, a, Reg::E, Some(inl))
     }
 
-    fn exec_on(&mut self, run: i64, evname: &str, call: &OpCall, a: Reg<B>, b: Reg<B>, inl: Option<Value>) -> Option<Value> {
-        let res = guard(|| Self::apply(call, &a, &b));
+    fn exec_on(&mut self, run: i64, evname: &str, call: &OpCall, mut a: Reg<B>, b: Reg<B>, inl: Option<Value>) -> Option<Value> {
+        set_codec(self.codec);
+        let res = guard(|| Self::apply(call, &mut a, &b));
+        if let Err(msg) = &res {
+            if msg.starts_with(MALFORMED) {
+                self.skipped += 1;
+                return None;
+            }
+        }
         let in_place = is_in_place(&call.op);
         let target = if in_place { call.a } else { call.dst };
+        // The operands as they are AFTER the call (read back like a result).  A copying method must leave
+        // them alone; whatever it left is what the register holds from now on.
+        let apost = if evname == "Op" && !in_place && call.a >= 1 && call.a <= NREG { Some(self.put_back(call.a, a)) } else { None };
+        let bpost = if evname == "Op" && call.b >= 1 && call.b <= NREG && call.b != call.a { Some(self.put_back(call.b, b)) } else { None };
         let mut status = "ok";
         let mut kind = "n";
         let (mut r, mut c) = (0usize, 0usize);
@@ -305,13 +383,7 @@ impl<B: Be> File<B> {
         let mut flag = true;
         let mut bo = false;
         match res {
-            Err(msg) => {
-                if msg.starts_with(MALFORMED) {
-                    self.skipped += 1;
-                    return None;
-                }
-                status = "panic";
-            }
+            Err(_) => status = "panic",
             // reading the result back goes through the library as well (shape, get): a result that cannot
             // be read (get panics on an inconsistent matrix) counts as a panic of the call
             Ok(Res::M(m)) => match guard(|| flat_m::<B>(&m)) {
@@ -358,12 +430,61 @@ impl<B: Be> File<B> {
         let mut e = json!({"run": run, "ev": evname, "be": B::NAME, "ty": B::TY, "op": call.op,
             "a": call.a, "b": call.b, "dst": call.dst, "ia": call.ia, "iv": call.iv, "iw": call.iw,
             "status": status, "kind": kind, "r": r, "c": c, "d": d, "out": out, "flag": flag, "bool": bo});
+        let none = (true, 0usize, 0usize, Vec::<i64>::new());
+        let (aok, ar, ac, ad) = apost.unwrap_or_else(|| none.clone());
+        let (bok, br, bc, bd) = bpost.unwrap_or(none);
+        e["aok"] = json!(aok);
+        e["ar"] = json!(ar);
+        e["ac"] = json!(ac);
+        e["ad"] = json!(ad);
+        e["apost"] = json!(evname == "Op" && !in_place && call.a >= 1 && call.a <= NREG);
+        e["bok"] = json!(bok);
+        e["br"] = json!(br);
+        e["bc"] = json!(bc);
+        e["bd"] = json!(bd);
+        e["bpost"] = json!(evname == "Op" && call.b >= 1 && call.b <= NREG && call.b != call.a);
         if let Some(Value::Object(extra)) = inl {
             for (k, v) in extra {
                 e[k] = v;
             }
         }
         Some(e)
+    }
+
+    /// re-observe an operand after the call and keep it as the content of its register
+    fn put_back(&mut self, idx: usize, reg: Reg<B>) -> (bool, usize, usize, Vec<i64>) {
+        let obs = guard(|| match &reg {
+            Reg::E => (0usize, 0usize, vec![]),
+            Reg::M(m) => flat_m::<B>(m),
+            Reg::V(v) => {
+                let d = flat_v::<B>(v);
+                (1, d.len(), d)
+            }
+        });
+        match obs {
+            Ok((r, c, data)) => match ints(&data) {
+                Some(iv) => {
+                    let maxabs = data.iter().fold(0.0f64, |m, x| m.max(x.abs()));
+                    if !matches!(reg, Reg::E) {
+                        self.meta[idx].r = r;
+                        self.meta[idx].c = c;
+                        self.meta[idx].maxabs = maxabs;
+                    }
+                    self.regs[idx] = reg;
+                    (true, r, c, iv)
+                }
+                None => {
+                    self.regs[idx] = Reg::E;
+                    self.meta[idx] = Meta { kind: 0, r: 0, c: 0, maxabs: 0.0, tr: false, nat: false };
+                    (false, r, c, vec![])
+                }
+            },
+            Err(_) => {
+                self.regs[idx] = Reg::E;
+                self.meta[idx] = Meta { kind: 0, r: 0, c: 0, maxabs: 0.0, tr: false, nat: false };
+                (false, 0, 0, vec![])
+            }
+        }
     }
 
     fn store(&mut self, target: usize, reg: Reg<B>, kind: u8, r: usize, c: usize, data: &[f64], d: &mut Vec<i64>, flag: &mut bool) {
@@ -393,13 +514,23 @@ impl<B: Be> File<B> {
     }
 
     /// the call itself (may panic: a panic of the library is data)
-    fn apply(call: &OpCall, a: &Reg<B>, b: &Reg<B>) -> Res<B> {
+    fn apply(call: &OpCall, a: &mut Reg<B>, b: &Reg<B>) -> Res<B> {
+        // `pow` is the one copying method that takes `&mut self`: it is called on the operand itself
+        if call.op == "pow" {
+            let p = B::T::from_i64x(*call.ia.first().unwrap_or_else(|| panic!("{}", MALFORMED)));
+            return match a {
+                Reg::M(m) => Res::M(m.pow(p)),
+                _ => panic!("{}", MALFORMED),
+            };
+        }
+        let a: &Reg<B> = &*a;
         macro_rules! ma { () => { as_m::<B>(a) }; }
         macro_rules! mb { () => { as_m::<B>(b) }; }
         macro_rules! va { () => { as_v::<B>(a) }; }
         macro_rules! vb { () => { as_v::<B>(b) }; }
         let ia = |i: usize| -> i64 { *call.ia.get(i).unwrap_or_else(|| panic!("{}", MALFORMED)) };
-        let sc = |i: usize| -> B::T { B::T::from_i64x(ia(i)) };
+        let sc = |i: usize| -> B::T { enc::<B>(ia(i)) }; // a value of the run (rescaled with it)
+        let raw = |i: usize| -> B::T { B::T::from_i64x(ia(i)) }; // a pure number (factor, divisor, exponent)
         let idx = |i: usize| -> usize { us(ia(i) - 1) };
         let one = B::T::from_i64x(1);
         let fm = |m: &B::M| -> Vec<f64> { flat_m::<B>(m).2 };
@@ -420,6 +551,7 @@ impl<B: Be> File<B> {
             "ones" => Res::M(<B::M as BaseMatrix<B::T>>::ones(us(ia(0)), us(ia(1)))),
             "fill" => Res::M(<B::M as BaseMatrix<B::T>>::fill(us(ia(0)), us(ia(1)), sc(2))),
             "v_from_array" => Res::Vv(<V<B> as BaseVector<B::T>>::from_array(&tv::<B>(&call.iv))),
+            "v_nat_reversed" | "v_nat_strided" | "v_nat_offset" => Res::Vv(B::vbuild(&call.op, &tv::<B>(&call.iv))),
             "v_zeros" => Res::Vv(<V<B> as BaseVector<B::T>>::zeros(us(ia(0)))),
             "v_ones" => Res::Vv(<V<B> as BaseVector<B::T>>::ones(us(ia(0)))),
             "v_fill" => Res::Vv(<V<B> as BaseVector<B::T>>::fill(us(ia(0)), sc(1))),
@@ -445,7 +577,7 @@ impl<B: Be> File<B> {
             }
             "add_scalar" => Res::M(ma!().add_scalar(sc(0))),
             "sub_scalar" => Res::M(ma!().sub_scalar(sc(0))),
-            "mul_scalar" => Res::M(ma!().mul_scalar(sc(0))),
+            "mul_scalar" => Res::M(ma!().mul_scalar(raw(0))),
             "add_scalar_mut" => {
                 let mut x = ma!().clone();
                 x.add_scalar_mut(sc(0));
@@ -458,16 +590,12 @@ impl<B: Be> File<B> {
             }
             "mul_scalar_mut" => {
                 let mut x = ma!().clone();
-                x.mul_scalar_mut(sc(0));
+                x.mul_scalar_mut(raw(0));
                 Res::M(x)
-            }
-            "pow" => {
-                let mut x = ma!().clone();
-                Res::M(x.pow(sc(0)))
             }
             "pow_mut" => {
                 let mut x = ma!().clone();
-                x.pow_mut(sc(0));
+                x.pow_mut(raw(0));
                 Res::M(x)
             }
             "binarize" => Res::M(ma!().binarize(sc(0))),
@@ -528,7 +656,7 @@ impl<B: Be> File<B> {
             }
             "mul_element_mut" => {
                 let mut x = ma!().clone();
-                x.mul_element_mut(idx(0), idx(1), sc(2));
+                x.mul_element_mut(idx(0), idx(1), raw(2));
                 Res::M(x)
             }
             // ---------------------------------------------------------------- vectors
@@ -557,7 +685,7 @@ impl<B: Be> File<B> {
             }
             "v_add_scalar" => Res::Vv(va!().add_scalar(sc(0))),
             "v_sub_scalar" => Res::Vv(va!().sub_scalar(sc(0))),
-            "v_mul_scalar" => Res::Vv(va!().mul_scalar(sc(0))),
+            "v_mul_scalar" => Res::Vv(va!().mul_scalar(raw(0))),
             "v_add_scalar_mut" => {
                 let mut x = va!().clone();
                 x.add_scalar_mut(sc(0));
@@ -570,7 +698,7 @@ impl<B: Be> File<B> {
             }
             "v_mul_scalar_mut" => {
                 let mut x = va!().clone();
-                x.mul_scalar_mut(sc(0));
+                x.mul_scalar_mut(raw(0));
                 Res::Vv(x)
             }
             "v_take" => {
@@ -594,7 +722,7 @@ impl<B: Be> File<B> {
             }
             "v_mul_element_mut" => {
                 let mut x = va!().clone();
-                x.mul_element_mut(idx(0), sc(1));
+                x.mul_element_mut(idx(0), raw(1));
                 Res::Vv(x)
             }
             // ---------------------------------------------------------------- integer queries
@@ -630,12 +758,12 @@ impl<B: Be> File<B> {
                 Res::Ints(vec![(d * d).round()])
             }
             "normp" => {
-                let d = f::<B>(ma!().norm(sc(0)));
+                let d = f::<B>(ma!().norm(raw(0)));
                 Res::Ints(vec![d.powi(ia(0) as i32).round()])
             }
             // p-norm of non-integer order ia[0] / 2
-            "norm_half" => Res::Fx(vec![f::<B>(ma!().norm(sc(0) / B::T::from_i64x(2)))]),
-            "v_norm_half" => Res::Fx(vec![f::<B>(va!().norm(sc(0) / B::T::from_i64x(2)))]),
+            "norm_half" => Res::Fx(vec![f::<B>(ma!().norm(raw(0) / B::T::from_i64x(2)))]),
+            "v_norm_half" => Res::Fx(vec![f::<B>(va!().norm(raw(0) / B::T::from_i64x(2)))]),
             "max_diff" => Res::Ints(vec![f::<B>(ma!().max_diff(mb!()))]),
             "dot" => Res::Ints(vec![f::<B>(ma!().dot(mb!()))]),
             "argmax" => Res::Ints(ma!().argmax().iter().map(|&x| x as f64).collect()),
@@ -652,7 +780,7 @@ impl<B: Be> File<B> {
                 Res::Ints(vec![(d * d).round()])
             }
             "v_normp" => {
-                let d = f::<B>(va!().norm(sc(0)));
+                let d = f::<B>(va!().norm(raw(0)));
                 Res::Ints(vec![d.powi(ia(0) as i32).round()])
             }
             "v_dot" => Res::Ints(vec![f::<B>(va!().dot(vb!()))]),
@@ -674,10 +802,10 @@ impl<B: Be> File<B> {
                 x.div_mut(mb!());
                 Res::Fx(fm(&x))
             }
-            "div_scalar" => Res::Fx(fm(&ma!().div_scalar(sc(0)))),
+            "div_scalar" => Res::Fx(fm(&ma!().div_scalar(raw(0)))),
             "div_scalar_mut" => {
                 let mut x = ma!().clone();
-                x.div_scalar_mut(sc(0));
+                x.div_scalar_mut(raw(0));
                 Res::Fx(fm(&x))
             }
             "scale_mut" => {
@@ -701,10 +829,10 @@ impl<B: Be> File<B> {
                 x.div_mut(vb!());
                 Res::Fx(flat_v::<B>(&x))
             }
-            "v_div_scalar" => Res::Fx(flat_v::<B>(&va!().div_scalar(sc(0)))),
+            "v_div_scalar" => Res::Fx(flat_v::<B>(&va!().div_scalar(raw(0)))),
             "v_div_scalar_mut" => {
                 let mut x = va!().clone();
-                x.div_scalar_mut(sc(0));
+                x.div_scalar_mut(raw(0));
                 Res::Fx(flat_v::<B>(&x))
             }
             other => panic!("harness: unknown op {}", other),
@@ -746,5 +874,14 @@ pub fn is_in_place(op: &str) -> bool {
 }
 
 pub fn reset_event<B: Be>(run: i64) -> Value {
-    json!({"run": run, "ev": "Reset", "be": B::NAME, "ty": B::TY})
+    reset_event_mode::<B>(run, Codec::Plain)
+}
+
+pub fn reset_event_mode<B: Be>(run: i64, codec: Codec) -> Value {
+    let (mode, se) = match codec {
+        Codec::Plain => ("plain", 0),
+        Codec::Scale(e) => ("scale", e),
+        Codec::Ulp => ("ulp", 0),
+    };
+    json!({"run": run, "ev": "Reset", "be": B::NAME, "ty": B::TY, "mode": mode, "se": se})
 }
